@@ -97,10 +97,11 @@ def design_and_replay(rep, tier, prop, relevant, interrupts=False, kinds=None, p
     try:
         traces, expected = [], []
         stride = 1
-        if tier == "quick" and len(progs) > 6000:
-            stride = len(progs) // 6000 + 1
+        import random
+        pick = random.Random(common.seed() + 17)
+        keep = min(1.0, (4000.0 / len(progs)) if tier == "quick" else 1.0)
         for n, p in enumerate(progs):
-            if (n + common.seed()) % stride:
+            if pick.random() >= keep:
                 continue
             cfg, steps, exp = concretise(p, n, kinds, idle)
             traces.append(L.run_program(cfg, steps, miss=L.miss_result(cfg) if cfg.ignore_exc else None))
